@@ -307,7 +307,8 @@ class AsyncScriptTransport(Transport):
         self.sync = True
         self.lines: deque[str] = deque()
         self.log: list[str] = []  # every write, in invocation order
-        self.done: list[str] = []  # writes that completed successfully
+        self.done: list[str] = []  # writes that completed successfully (completion order)
+        self.entries: list[list] = []  # [line, "ok" | "failed" | "pending"] in invocation order
         self.pending_writes: list[list] = []  # [future, line]
         self.pending_reads: list = []  # futures of read() calls waiting for a line (oldest first)
         self.connected = False
@@ -342,8 +343,11 @@ class AsyncScriptTransport(Transport):
 
     async def write(self, decoded_message: str) -> None:
         self.log.append(decoded_message)
+        rec = [decoded_message, "pending"]
+        self.entries.append(rec)
         if self.sync:
             self.done.append(decoded_message)
+            rec[1] = "ok"
             return
         fut = self.loop.create_future()
         entry = [fut, decoded_message]
@@ -351,6 +355,10 @@ class AsyncScriptTransport(Transport):
         try:
             await fut
             self.done.append(decoded_message)
+            rec[1] = "ok"
+        except BaseException:
+            rec[1] = "failed"
+            raise
         finally:
             if entry in self.pending_writes:
                 self.pending_writes.remove(entry)
@@ -367,6 +375,10 @@ class AsyncScriptTransport(Transport):
 
     def fail_read(self, exc: BaseException) -> None:
         self.pending_reads.pop(0).set_exception(exc)
+
+    def written(self) -> list[str]:
+        """Lines whose write completed successfully, in the order the writes were issued (wire order)."""
+        return [line for line, st in self.entries if st == "ok"]
 
     def complete_write(self, idx: int, ok: bool = True) -> None:
         fut, line = self.pending_writes.pop(idx)
